@@ -408,8 +408,8 @@ def run(repo, tier):
     res.floor('A2', 40)
     res.exhaustive_rules = ['L1 over (public mutator x lazyproperty) of SegmentationImage', 'D3', 'COUPLED']
     from .common import run_label_eq
-    if run_label_eq(repo, res, {'photutils.segmentation.core', 'photutils.segmentation.catalog'}) < 3:
-        raise AnalysisError('vanished anchor: per-label loops over (label, slices)')
+    run_label_eq(repo, res, {'photutils.segmentation.core', 'photutils.segmentation.catalog'})
+    res.floor('LABEL-EQ', 3)
     from .common import apply_specs
     apply_specs(repo, res, [
         ('photutils.segmentation.core.SegmentationImage.remove_border_labels', 'stmt', 'border_mask[border_mask.shape[0] - border_width:] = True',
